@@ -212,6 +212,25 @@ def _ret_none(st: ast.stmt) -> bool:
     return isinstance(st, ast.Return) and (st.value is None or (isinstance(st.value, ast.Constant) and st.value.value is None))
 
 
+_PURE_METHODS = {"join", "encode", "decode", "format", "strip", "rstrip", "lstrip", "replace", "splitlines", "split", "copy", "keys", "values", "items", "get"}
+_PURE_FUNCS = {"str", "bytes", "len", "list", "tuple", "sorted", "dict", "set", "repr", "int", "bool", "Path", "min", "max", "sum", "enumerate", "zip", "map", "filter"}
+
+
+def _pure_expr(e: ast.expr) -> bool:
+    """An expression without effects of its own: literals, names, attribute reads, string/collection methods and builtins over such."""
+    for x in ast.walk(e):
+        if isinstance(x, ast.Call):
+            f = x.func
+            if isinstance(f, ast.Attribute) and f.attr in _PURE_METHODS:
+                continue
+            if isinstance(f, ast.Name) and f.id in _PURE_FUNCS:
+                continue
+            return False
+        if isinstance(x, (ast.Await, ast.Yield, ast.YieldFrom, ast.NamedExpr, ast.Lambda)):
+            return False
+    return True
+
+
 class Region:
     """Statements that execute in only one of the two modes (found by comparing the two assumption-pruned flow analyses)."""
 
@@ -262,8 +281,8 @@ class Region:
                 return False, f"`{unparse(st)[:70]}` is not a write"
             if isinstance(st, ast.Assign) and all(isinstance(t, ast.Name) and t.id in self.local for t in st.targets):
                 v = st.value
-                if isinstance(v, (ast.Constant, ast.Name)) or (isinstance(v, ast.Call) and is_write_call(v)):
-                    continue
+                if isinstance(v, (ast.Constant, ast.Name)) or (isinstance(v, ast.Call) and is_write_call(v)) or _pure_expr(v):
+                    continue  # a value prepared for the write and used nowhere else
                 return False, f"`{unparse(st)[:70]}` computes something that is not a write status"
             if isinstance(st, (ast.With, ast.AsyncWith)):
                 for it in st.items:
